@@ -167,7 +167,7 @@ def r04c(ck, fb):
     if b:
         wa = b.calls(r'AsyncWriteExt::write_all$')
         t = Taint(b, call_src=lambda t: (t.get('f') or {}).get('d', '').endswith('byte_utils::id_to_bin'))
-        ck.require(len(wa) == 1 and t.op_tainted(wa[0].args[1]), 'R04c', 'write_last_applied_log:id_to_bin', b.where(),
+        ck.require(len(wa) >= 1 and all(t.op_tainted(_x.args[1]) for _x in wa), 'R04c', 'write_last_applied_log:id_to_bin', b.where(),
                    'last_applied header is not written as the raw 8 byte id')
         ck.require('last_applied_log' in util.assigned_fields(b) and 'applied_flush' in util.assigned_fields(b), 'R04c',
                    'write_last_applied_log:state', b.where(), 'in-memory last_applied / dirty flag not updated')
